@@ -1,4 +1,5 @@
 import LsModel.Txn
+import LsLemmas.TxnBase
 import LsLemmas.StrategyIter3
 import LsLemmas.MergeRefine
 /-
@@ -11,18 +12,10 @@ open Ls Ls.Lmdb Ls.Strategy Ls.Merge
 
 /-! ## names -/
 
-theorem syncPrefix_eq : syncPrefix = [0x5f, 0x73, 0x79, 0x6e, 0x63] := by decide +kernel
-theorem shadowPrefix_eq :
+theorem shadowPrefix_eqMirror :
     shadowPrefix = [0x5f, 0x73, 0x79, 0x6e, 0x63, 0x5f, 0x73, 0x68, 0x61, 0x64, 0x6f, 0x77, 0x5f] := by
   decide +kernel
 theorem hackName_ne : strBytes Gen.transformDupSortHackV1 ≠ [] := by decide +kernel
-
-/-- a shadow DBI is private (its name starts with `_sync`) -/
-theorem isPrivate_shadowName (n : Bytes) : isPrivate (shadowName n) = true := by
-  simp [isPrivate, shadowName, syncPrefix_eq, shadowPrefix_eq]
-
-theorem shadowName_inj {a b : Bytes} (h : shadowName a = shadowName b) : a = b := by
-  simpa [shadowName] using h
 
 theorem shadowName_ne_of_not_private {a n : Bytes} (h : isPrivate n = false) : shadowName a ≠ n := by
   intro he; rw [← he, isPrivate_shadowName] at h; cases h
@@ -41,21 +34,6 @@ theorem isDupSort_mask (f : Nat) : isDupSort (f &&& Gen.allowedShadowDBIFlagsMas
 /-! ## findDbi / setKvs / insertDbi -/
 
 theorem findDbi_nil (n : Bytes) : findDbi [] n = none := rfl
-
-theorem findDbi_cons (x : Dbi) (rest : List Dbi) (n : Bytes) :
-    findDbi (x :: rest) n = if x.name = n then some x else findDbi rest n := by
-  unfold findDbi
-  by_cases h : x.name = n
-  · rw [List.find?_cons_of_pos (by simpa using h), if_pos h]
-  · rw [List.find?_cons_of_neg (by simpa using h), if_neg h]
-
-theorem findDbi_name {dbis : List Dbi} {n : Bytes} {d : Dbi} (h : findDbi dbis n = some d) : d.name = n := by
-  unfold findDbi at h
-  simpa using List.find?_some h
-
-theorem findDbi_mem {dbis : List Dbi} {n : Bytes} {d : Dbi} (h : findDbi dbis n = some d) : d ∈ dbis := by
-  unfold findDbi at h
-  exact List.mem_of_find?_eq_some h
 
 theorem findDbi_none_iff {dbis : List Dbi} {n : Bytes} : findDbi dbis n = none ↔ ∀ d ∈ dbis, d.name ≠ n := by
   unfold findDbi
@@ -78,7 +56,7 @@ theorem findDbi_isSome_iff {dbis : List Dbi} {n : Bytes} :
         · exact absurd h'.symm h
         · exact h'
 
-theorem findDbi_setKvs (dbis : List Dbi) (n : Bytes) (kvs : KVs) (m : Bytes) :
+theorem findDbi_setKvsMirror (dbis : List Dbi) (n : Bytes) (kvs : KVs) (m : Bytes) :
     findDbi (setKvs dbis n kvs) m =
       if m = n then (findDbi dbis n).map (fun d => { d with kvs := kvs }) else findDbi dbis m := by
   induction dbis with
@@ -179,7 +157,7 @@ theorem openCreate_find_self (w : W) (n : Bytes) (fl : Nat) :
     rw [hd]
     exact findDbi_insertDbi_self w.dbis { name := n, flags := fl, kvs := [] } hd
 
-theorem openCreate_of_some {w : W} {n : Bytes} {d : Dbi} (fl : Nat) (h : findDbi w.dbis n = some d) :
+theorem openCreate_of_someMirror {w : W} {n : Bytes} {d : Dbi} (fl : Nat) (h : findDbi w.dbis n = some d) :
     openCreate w n fl = w := by
   unfold openCreate; rw [h]
 
@@ -192,21 +170,6 @@ theorem openCreate_mem (w : W) (n : Bytes) (fl : Nat) (x : Dbi) (hx : x ∈ (ope
     rcases (insertDbi_mem _ _ _).mp hx with h | h
     · exact Or.inr ⟨h, hn⟩
     · exact Or.inl h
-
-theorem runOn_ok {w w' : W} {n : Bytes} {f : S → Except Err S} (h : runOn w n f = .ok w') :
-    ∃ d s, findDbi w.dbis n = some d ∧ f { db := d.kvs, dirty := w.dirty } = .ok s ∧
-      w' = { dbis := setKvs w.dbis n s.db, dirty := s.dirty } := by
-  unfold runOn at h
-  cases hd : findDbi w.dbis n with
-  | none => simp [hd] at h
-  | some d =>
-    simp only [hd] at h
-    cases hs : f { db := d.kvs, dirty := w.dirty } with
-    | error e => simp [hs, bind, Except.bind] at h
-    | ok s =>
-      simp only [hs, bind, Except.bind, pure, Except.pure] at h
-      injection h with h
-      exact ⟨d, s, rfl, hs, h.symm⟩
 
 theorem runOn_eq {w : W} {n : Bytes} {d : Dbi} {f : S → Except Err S} {s : S}
     (hd : findDbi w.dbis n = some d) (hs : f { db := d.kvs, dirty := w.dirty } = .ok s) :
@@ -291,39 +254,7 @@ def entryOf (raw : Bool) (kv : Bytes × Bytes) : Except Err KV :=
       | .ok (h, app) =>
         pure ({ key := kv.1, val := app, ts := h.ts, flags := (Header.masked h.flags).toNat } : KV)
 
-def s2mStep (c : Cfg) (w : W) (name : Bytes) : Except Err W := do
-    if isPrivate name then pure w else
-    let some d := findDbi w.dbis name | throw .dbiMissing
-    let dup := isDupSort d.flags
-    if dup ∧ ¬ c.hack then throw .dupsortNoHack
-    let msg ← readDBI c w (shadowName name) name false
-    let entries ← if dup then
-        (match DupSort.decodeAll msg.entries with
-         | .ok r => pure r
-         | .error _ => throw Err.dupHack)
-      else pure msg.entries
-    runOn w name fun s =>
-      if dup then mapStratErr (emptyPut (isIntKey d.flags) true plainIter s entries)
-      else mapStratErr (iterUpdate (isIntKey d.flags) plainIter s entries)
-
 theorem shadowToMain_eq (c : Cfg) (w : W) : shadowToMain c w = (dbiNames w).foldlM (s2mStep c) w := rfl
-
-def m2sStep (c : Cfg) (txnID now cutoff : Nat) (w : W) (name : Bytes) : Except Err W := do
-    if isPrivate name then pure w else
-    let msg ← readDBI c w name name true
-    let some d := findDbi w.dbis name | throw .dbiMissing
-    let dup := isDupSort d.flags
-    if dup ∧ ¬ c.hack then throw .dupsortNoHack
-    let targetFlags := d.flags &&& Gen.allowedShadowDBIFlagsMask
-    let entries ← if c.hack ∧ dup then
-        (match DupSort.encodeAll msg.entries with
-         | .ok r => pure r
-         | .error _ => throw Err.dupHack)
-      else pure msg.entries
-    let w := openCreate w (shadowName name) targetFlags
-    let some sd := findDbi w.dbis (shadowName name) | throw .dbiMissing
-    let mc : Merge.Cfg := { fv := Gen.currentFormatVersion, defTs := now, txn := txnID, cutoff := cutoff, pad := false }
-    runOn w (shadowName name) fun s => mapStratErr (iterUpdate (isIntKey sd.flags) (nativeIter mc) s entries)
 
 theorem mainToShadow_eq (c : Cfg) (w : W) (txnID now cutoff : Nat) :
     mainToShadow c w txnID now cutoff = (dbiNames w).foldlM (m2sStep c txnID now cutoff) w := rfl
@@ -337,7 +268,7 @@ def readTail (c : Cfg) (on : Bytes) (raw : Bool) (d : Dbi) (flags : Nat) : Excep
          transform := if dup then strBytes Gen.transformDupSortHackV1 else [],
          entries := entries }
 
-theorem readDBI_eq (c : Cfg) (w : W) (dn on : Bytes) (raw : Bool) :
+theorem readDBI_eqMirror (c : Cfg) (w : W) (dn on : Bytes) (raw : Bool) :
     readDBI c w dn on raw =
       match findDbi w.dbis dn with
       | none => .error .dbiMissing
@@ -374,12 +305,12 @@ theorem readTail_ok {c : Cfg} {on : Bytes} {raw : Bool} {d : Dbi} {fl : Nat} {ms
       subst h
       exact ⟨rfl, rfl, rfl, rfl⟩
 
-theorem readDBI_ok {c : Cfg} {w : W} {dn on : Bytes} {raw : Bool} {msg : DbiMsg}
+theorem readDBI_okMirror {c : Cfg} {w : W} {dn on : Bytes} {raw : Bool} {msg : DbiMsg}
     (h : readDBI c w dn on raw = .ok msg) :
     ∃ d fl, findDbi w.dbis dn = some d ∧
       (if dn ≠ on then ∃ o, findDbi w.dbis on = some o ∧ fl = o.flags else fl = d.flags) ∧
       readTail c on raw d fl = .ok msg := by
-  rw [readDBI_eq] at h
+  rw [readDBI_eqMirror] at h
   cases hd : findDbi w.dbis dn with
   | none => simp [hd] at h
   | some d =>
@@ -416,7 +347,7 @@ theorem s2mStep_nondup_eq {c : Cfg} {w : W} {name : Bytes} {d sd : Dbi} {es : Li
   have hr : readDBI c w (shadowName name) name false = .ok
       { name := name, flags := d.flags,
         transform := if isDupSort d.flags then strBytes Gen.transformDupSortHackV1 else [], entries := es } := by
-    rw [readDBI_eq, hsd]
+    rw [readDBI_eqMirror, hsd]
     simp only [if_pos hne, hd, bind, Except.bind, pure, Except.pure]
     exact readTail_eq (by simp [hnd]) hm
   unfold s2mStep
@@ -435,7 +366,7 @@ theorem s2mStep_nondup_ok {c : Cfg} {w w' : W} {name : Bytes} {d : Dbi}
   cases hr : readDBI c w (shadowName name) name false with
   | error e => simp [hr] at h
   | ok msg =>
-    obtain ⟨sd, fl, hsd, _, ht⟩ := readDBI_ok hr
+    obtain ⟨sd, fl, hsd, _, ht⟩ := readDBI_okMirror hr
     obtain ⟨_, hm, _⟩ := readTail_ok ht
     rw [s2mStep_nondup_eq hp hd hnd hsd hm] at h0
     obtain ⟨d', s, hd', hs, hw⟩ := runOn_ok h0
